@@ -143,16 +143,17 @@ def closed_form_scales(a0, s, dt, n):
     return sv, sd
 
 
-def reference_pairs(record, dt, trap):
+def reference_pairs(record, dt, trap, sides_v=('left', 'right'), sides_d=('left', 'right')):
     """Every (velocity, displacement) pair the statement admits for this record, computed from the record alone:
-    trapezoid -> one pair; rectangle rule -> the side is free for each of the two integrations (left/right)."""
+    trapezoid -> one pair; rectangle rule -> one pair per admissible side of each of the two integrations (the caller
+    passes the ONE convention it has fixed for the tree under test; both sides when it could not fix one)."""
     if trap:
         v = integrate(record, dt, 'trap')
         return [('trap', 'trap', v, integrate(v, dt, 'trap'))]
     out = []
-    for rv in ('left', 'right'):
+    for rv in sides_v:
         v = integrate(record, dt, rv)
-        for rd in ('left', 'right'):
+        for rd in sides_d:
             out.append((rv, rd, v, integrate(v, dt, rd)))
     return out
 
